@@ -266,5 +266,63 @@ class Serialiser(_c15.HashSerialisation):
     prop = 'C16'
 
 
-TARGETS = [ComputeInfo(), CanMemoize(), Serialiser()]
+class PopulateWorkdir(Target):
+    """the last consumer of a matching hash: Controller._memoize_populate_component_workdir fills THE COMPONENT'S OWN working
+    directory from exactly the matched past execution (its local directory if present, else the files of that instance /
+    stage / component fetched through the CDB) and reports failure -- 'will not memoize' -- when that cannot be done."""
+    prop = 'C16'
+    name = 'Controller._memoize_populate_component_workdir'
+    file = 'python/experiment/runtime/control.py'
+    qualname = 'Controller._memoize_populate_component_workdir'
+    compare_return = False
+    trusted = ["distutils.dir_util.copy_tree(src, dst) copies src into dst", "cdb_download_component_files fetches that component's files"]
+    assumptions = ["matched document local / remote; copying or downloading succeeds or raises"]
+
+    def setup(self, c):
+        g = c.ghost
+        g['copied'] = []
+        g['downloaded'] = []
+        local = c.one_of('past_execution_is_local', [True, False])
+        fails = c.one_of('transfer', ['ok', 'raises'])
+        doc = {'location': '/old/inst/stages/stage3/PAST', 'instance': 'file://gw/old/inst', 'stage': 3, 'name': 'PAST'}
+
+        def download(c, uri, stage, name, dest):
+            g['downloaded'].append((uri, stage, name, dest))
+            if fails == 'raises':
+                c.raise_(RuntimeError, 'cdb down')
+        comp = Obj('ComponentState', specification=Obj('spec', reference='stage1.me', directory='/new/inst/stages/stage1/me'))
+        this = Obj('controller', log=NULLLOG, cdb=Obj('cdb', cdb_download_component_files=Extern('cdb_download_component_files', download)))
+        return State(args=[this, comp, doc], local=local, fails=fails, doc=doc)
+
+    def externs(self, c, st):
+        g = c.ghost
+
+        def copy_tree(c, src, dst, *a, **k):
+            g['copied'].append((src, dst))
+            if st.fails == 'raises':
+                c.raise_(OSError, 5, 'io error')
+            return []
+        return {'os.path.isdir': Extern('os.path.isdir', lambda c, p: st.local and p == st.doc['location']),
+                'distutils.dir_util.copy_tree': Extern('copy_tree', copy_tree)}
+
+    def ensures(self, c, st, out):
+        if out.kind == 'raise':
+            return [('a-failed-transfer-is-reported-not-raised', False)]
+        g = c.ghost
+        mine = '/new/inst/stages/stage1/me'
+        cl = [('a-failed-transfer-is-reported-not-raised', True),
+              ('success-iff-the-outputs-were-transferred', out.value is (st.fails == 'ok'))]
+        if st.local:
+            cl.append(('outputs-come-from-the-matched-execution-and-go-to-the-components-own-directory',
+                       g['copied'] == [(st.doc['location'], mine)] and g['downloaded'] == []))
+        else:
+            cl.append(('outputs-come-from-the-matched-execution-and-go-to-the-components-own-directory',
+                       g['downloaded'] == [('file://gw/old/inst', 3, 'PAST', mine)] and g['copied'] == []))
+        return cl
+
+    def cross_compare(self, *a):
+        return []
+
+
+TARGETS = [ComputeInfo(), CanMemoize(), PopulateWorkdir(), Serialiser()]
 LEMMAS = [SerialiserInjectivity()]
